@@ -65,12 +65,14 @@ _MI = 'gambatools.identifier_generator'
 contract(_MI, 'IdentifierGenerator.__init__', {'self': 'IdGen', 'index': 'Int'}, returns='None', modifies=['self'], defaults={'index': '0'},
          ensures=['self.index == index'], theories=[], props=['C18'])
 contract(_MI, 'IdentifierGenerator.generate', {'self': 'IdGen', 'hint': 'Atom'}, returns='Atom', modifies=['self'],
-         ensures=['self.index == old(self.index) + 1'], theories=['naming'], props=['C18'],
-         note='the name returned is hint followed by the old counter; the callers only need that the counter advances')
+         ensures=['self.index == old(self.index) + 1', 'result == hint_index_name(hint, old(self.index))'], theories=['naming'], props=['C18', 'C06'],
+         note='the name returned is hint followed by the old counter')
 
+_NAMED = "any(%s <= j and j < %s and %s == hint_index_name('q', j) for j in ints())"
 for _v, _t in (('default', 'None'), ('given', 'IdGen')):
-    contract(M, '_fresh_nfa_state', {'Q': 'Set[State]', 'id_generator': _t}, returns='State', variant=_v, modifies=['id_generator'], ensures=['result not in Q'],
-             loops={1: {'invariant': []}},
+    contract(M, '_fresh_nfa_state', {'Q': 'Set[State]', 'id_generator': _t}, returns='State', variant=_v, modifies=['id_generator'],
+             ensures=['result not in Q'] + ([_NAMED % ('old(id_generator.index)', 'id_generator.index', 'result'), 'id_generator.index > old(id_generator.index)'] if _v == 'given' else []),
+             loops={1: {'invariant': ([_NAMED % ('old(id_generator.index)', 'id_generator.index', 'q'), 'id_generator.index > old(id_generator.index)'] if _v == 'given' else [])}},
              theories=['naming'], props=['C18'], note='partial correctness: the loop only exits with an unused name; termination (finitely many names are taken) is exercised by the bounded stand-in with clashing names and call histories')
 
 _OPS = ['nfa_wf(result)', 'result.epsilon == N1.epsilon']
@@ -79,7 +81,8 @@ def _step_from(Nn):
 for _v, _t in (('default', 'None'), ('given', 'IdGen')):
     contract(M, 'nfa_union', {'N1': 'NFA', 'N2': 'NFA', 'id_generator': _t}, returns='NFA', variant=_v, defaults={'id_generator': 'None'},
              requires=['nfa_wf(N1)', 'nfa_wf(N2)', 'N1.Q.isdisjoint(N2.Q)', 'N1.epsilon not in N2.Sigma'],
-             ensures=_OPS + ['result.q0 not in N1.Q', 'result.q0 not in N2.Q', 'result.Q == N1.Q | N2.Q | {result.q0}', 'result.Sigma == N1.Sigma | N2.Sigma', 'result.F == N1.F | N2.F',
+             ensures=_OPS + ([_NAMED % ('old(id_generator.index)', 'id_generator.index', 'result.q0'), 'id_generator.index > old(id_generator.index)'] if _v == 'given' else []) +
+                     ['result.q0 not in N1.Q', 'result.q0 not in N2.Q', 'result.Q == N1.Q | N2.Q | {result.q0}', 'result.Sigma == N1.Sigma | N2.Sigma', 'result.F == N1.F | N2.F',
                              'step(result, result.q0, N1.epsilon) == {N1.q0, N2.q0}',
                              'all(implies(b != N1.epsilon, step(result, result.q0, b) == set_empty()) for b in atoms())',
                              'all((y in step(result, q, b)) == (%s) for q in N1.Q for b in atoms() for y in atoms())' % _step_from('N1'),
@@ -94,7 +97,8 @@ for _v, _t in (('default', 'None'), ('given', 'IdGen')):
              note='exact transition relation of the textbook construction (epsilon moves of the second operand relabelled); the language statement follows by lemma union-sim (runs from a set of states, embedding of each operand, word induction)')
     contract(M, 'nfa_repetition', {'N': 'NFA', 'id_generator': _t}, returns='NFA', variant=_v, defaults={'id_generator': 'None'},
              requires=['nfa_wf(N)'],
-             ensures=['nfa_wf(result)', 'result.epsilon == N.epsilon', 'result.q0 not in N.Q', 'result.Q == N.Q | {result.q0}', 'result.Sigma == N.Sigma', 'result.F == N.F | {result.q0}',
+             ensures=([_NAMED % ('old(id_generator.index)', 'id_generator.index', 'result.q0'), 'id_generator.index > old(id_generator.index)'] if _v == 'given' else []) +
+                     ['nfa_wf(result)', 'result.epsilon == N.epsilon', 'result.q0 not in N.Q', 'result.Q == N.Q | {result.q0}', 'result.Sigma == N.Sigma', 'result.F == N.F | {result.q0}',
                       'step(result, result.q0, N.epsilon) == {N.q0}',
                       'all(implies(b != N.epsilon, step(result, result.q0, b) == set_empty()) for b in atoms())',
                       'all((y in step(result, q, b)) == (y in step(N, q, b) or (b == N.epsilon and q in N.F and y == N.q0)) for q in N.Q for b in atoms() for y in atoms())',
